@@ -90,7 +90,7 @@ Definition check_proof (c : proof_case) : N :=
 (* ---- layered model (SMT/Layered.v) against the real node store ----
    The harness dumps the DB after every Update of a small history: (sub-tree root hash, encoded sub-tree bytes).
    The layered model runs the same history; its store, encoded as subtree.go encode does, must be the same set. *)
-From LE Require Import SMT.Layered.
+From LE Require Import SMT.Layered SMT.LayeredFlat.
 Definition lnode : Type := @snode (list N) hsh.
 Definition lflat : Type := list (nat * lnode).
 Definition lstore : Type := list (hsh * lflat).
@@ -150,13 +150,18 @@ Definition dump_ok (sh lv kl : nat) (iroot : hsh) (d : dump) : bool :=
 
 (* (key length in bytes, sub-tree height, batches with the implementation's root and store dump after each) *)
 Definition store_case : Type := N * N * list (list wop * hsh * dump).
-Fixpoint run_store (sh lv kl : nat) (st : option (lstore * hsh)) (bs : list (list wop * hsh * dump)) : bool * bool :=
+(* the variant with the flat transcriptions of calculateSubTree / treeHasher (SMT/LayeredFlat.v) runs alongside *)
+Definition lupdate_flat (sh lv : nat) := @layered_update_flat (list N) hsh hempty hleafk hbranch bytes_eqb sh lv.
+Definition state_agrees (st : option (lstore * hsh)) (iroot : hsh) (d : dump) : bool :=
+  match st with Some (m, r) => bytes_eqb r iroot && store_eq m d | None => false end.
+Fixpoint run_store (sh lv kl : nat) (st stf : option (lstore * hsh)) (bs : list (list wop * hsh * dump)) : bool * bool :=
   match bs with
   | [] => (true, true)
   | (b, iroot, d) :: rest =>
     let st' := match st with Some sr => lupdate sh lv sr (map to_op b) | None => None end in
-    let agree := match st' with Some (m, r) => bytes_eqb r iroot && store_eq m d | None => false end in
-    let '(a, o) := run_store sh lv kl st' rest in
+    let stf' := match stf with Some sr => lupdate_flat sh lv sr (map to_op b) | None => None end in
+    let agree := state_agrees st' iroot d && state_agrees stf' iroot d in
+    let '(a, o) := run_store sh lv kl st' stf' rest in
     (agree && a, dump_ok sh lv kl iroot d && o)
   end.
 Definition check_store (c : store_case) : N :=
@@ -164,5 +169,5 @@ Definition check_store (c : store_case) : N :=
   let klb := N.to_nat kl in
   let shn := N.to_nat sh in
   let lv := Nat.div (8 * klb) shn in
-  let '(a, o) := run_store shn lv klb (Some ([], hempty)) bs in
+  let '(a, o) := run_store shn lv klb (Some ([], hempty)) (Some ([], hempty)) bs in
   code a o.
